@@ -4,4 +4,34 @@ TEXT = {
   note="Trusted: Coq kernel; extraction (ExtrOcamlBasic); OCaml driver and Go harness glue; encoding/json's text layer and key sorting are modelled. Determinism is proved per output site plus root-level congruence, not as one global congruence theorem over all 65 fields.",
  ),
 }
+TEXT.update({
+ "C01": dict(
+  level="Theorem validate_refines (Coq, no axioms): for every fuel, dynamic scope, schema object and instance in any well-formed Go representation, whenever the 2020-12 specification function spec_eval is defined the evaluator model returns exactly its verdict and evaluated sets; spec_eval is proved monotone in fuel (a well-defined partial function). The specification is validated against the expected verdicts of the whole official suite; the model is tied to the code by the differential correspondence (document -> Unmarshal -> Resolve -> Validate) on generated documents with interacting keywords.",
+  note="Trusted: the transcription of the 2020-12 rules in val/Spec.v (checked against 1,095 official expectations each run), regexp as an oracle table, the JSON text layer, float division for multipleOf on the restricted domain. Fuel sufficiency (termination for instance-descending recursion) is not proved: the theorem is conditional on the specification being defined at the fuel used; the correspondence runs use fuel 200 and report any out-of-fuel result.",
+ ),
+ "C02": dict(
+  level="The same refinement theorem instantiated at draft-07 (the specification switches $ref-masks-siblings, array-form items/additionalItems and dependencies on the draft flag), draft detection and refusal of unsupported $schema values as theorems, inheritance of the root's draft by loaded documents shown on the model and by correspondence; the draft-07 specification is validated against the 909 official expectations each run.",
+  note="Trusted as C01. The inheritance rule is definitional in the resolver model (draft of a loaded document = root's when it declares none) and is tied to the code by the d7/ref correspondence families; no separate lexical specification of identification is proved yet (see C03).",
+ ),
+ "C06": dict(
+  level="The dynamic scope is an argument of the refinement theorem (validate_refines holds for every stack); the code's stack walk equals the specification's scope lookup, which provably selects the outermost declaring resource and falls back to the lexical target; reuse of a Resolved is by construction in the model and checked on call histories by the correspondence.",
+  note="Trusted: the resolver model's static classification of $dynamicRef (dynamic iff the lexical target carries a $dynamicAnchor of that name) is tied by correspondence, not by a theorem against a lexical specification.",
+ ),
+ "C07": dict(
+  level="The sigma component of validate_refines: on success the code's compressed bookkeeping denotes exactly the specification's evaluated property and item sets, unevaluated* is applied to exactly the complement (theorem over the loop), and a failed subschema contributes nothing.",
+  note="Trusted as C01.",
+ ),
+ "C08": dict(
+  level="Corollary of validate_refines: two well-formed representations with the same denotation get the same verdict, equal to that of the canonical decoding; jsonType/jsonNumber/equalValue are proved functions of the denotation.",
+  note="The model abstracts representation details the repaired code no longer inspects (static element/key types, pointer vs interface); that abstraction (harness sxOfValue) is exercised by the repr family across 14 numeric kinds and typed containers.",
+ ),
+ "C11": dict(
+  level="Theorem: equalValue x y = true iff the denoted JSON values are related by the declarative jeq (numbers by Qeq, objects as finite maps), for all well-formed representations; jeq is proved an equivalence, hence Equal is reflexive, symmetric and transitive.",
+  note="Trusted: math/big exactness, reflect; the Go-value abstraction of the harness.",
+ ),
+ "C12": dict(
+  level="Theorems: enum/const are existsb/Equal; the hash law (Equal values write identical data); the uniqueItems bucket algorithm returns 'no two elements Equal' for EVERY bucket function, by an invariant over the bucket table; verdicts are independent of the seed.",
+  note="Trusted: maphash as an arbitrary function of the bytes written; the verif hook VerifHashValue for the implementation-side hash law check.",
+ ),
+})
 PENDING = {}
